@@ -357,8 +357,7 @@ def modular(rng, name, shared_uncovered=False):
         share = shuffle(rng, dirs)[:(2 + rng.below(ndirs - 1)) if bi == 0 or rng.below(2) else 1]
         for d in share:
             present[(d, b)] = True
-    tn = shuffle(rng, WORDS)
-    fn = {}
+    tn = shuffle(rng, [w + x for x in ("Ext", "Aux", "Sub") for w in WORDS]) + shuffle(rng, WORDS)      # popped from the end
     files = {k: {"objects": [], "inputs": [], "enums": [], "scalars": [], "ifaces": [], "unions": [], "dirs": []} for k in present}
     keys = sorted(present)
     # per output group: is it object/input free? (only for bases beyond the first, sometimes)
@@ -390,7 +389,8 @@ def modular(rng, name, shared_uncovered=False):
     # directives with arguments
     dcount = 0
     argdirs = []
-    for b in bases:
+    exec_base = bases[rng.below(len(bases))] if rng.below(2) else None     # executable directives in ONE output file only: two files
+    for b in bases:                                                        # would both declare _queryMiddleware (C17's business)
         group = [k for k in keys if k[1] == b]
         pin = pinned(b)
         for k in shuffle(rng, group):
@@ -401,7 +401,7 @@ def modular(rng, name, shared_uncovered=False):
                 dcount += 1
                 files[k]["dirs"].append("directive @%s(role: String!, level: Int = %d) on %s" % (dn, rng.below(9), DIR_LOCS))
                 argdirs.append(dn)
-        if pin is not None and rng.below(3) == 0:
+        if pin is not None and b == exec_base:
             # an executable directive: its middleware functions must land in a file; only the pinned source's do
             dn = "trace%d" % dcount
             dcount += 1
@@ -496,7 +496,7 @@ def modular(rng, name, shared_uncovered=False):
         schema = sorted({"%s/*.graphql" % os.path.dirname(p) for p in paths})
         schema = shuffle(rng, schema)
     else:
-        schema = ["**/*.graphql"]
+        schema = ["./**/*.graphql"]
     y = "schema:\n" + "".join('  - "%s"\n' % x for x in schema)
     exec_dir = [".", "graph"][rng.below(2)]
     y += "exec:\n  layout: follow-schema\n  dir: %s\n  package: %s\n" % (exec_dir, name if exec_dir == "." else "graph")
